@@ -18,7 +18,11 @@
 (* Algo = "arange_int" is the repaired algorithm:                          *)
 (*      end + s * arange(1, extra + 1)          -> exactly extra           *)
 (* extend_dim keeps float arange; there the extra point is the lattice     *)
-(* point AT an open end, which Req accepts (boundary guard).               *)
+(* point nominally AT an open end, which Req accepts (boundary guard) as    *)
+(* long as the double produced is strictly inside the interval.            *)
+(* ExtFilter = FALSE is extend_dim as found: the point is kept even when it *)
+(* equals or exceeds the open end (history/MC_CropExtend_openend.cfg);      *)
+(* ExtFilter = TRUE is the repaired code (new coordinates filtered).        *)
 (***************************************************************************)
 EXTENDS CropExtend, TLC, Json
 CONSTANTS NU, NS,     \* first NU units / NS starts of the lists
@@ -26,7 +30,8 @@ CONSTANTS NU, NS,     \* first NU units / NS starts of the lists
           Sub,        \* interval ends on multiples of Sub quarter steps (1: quarters, 2: halves)
           Ext,        \* extension up to Ext quarter steps beyond either end
           ExtNs,      \* axis lengths used for extend_dim
-          Algo
+          Algo,
+          ExtFilter   \* extend_dim drops generated coordinates that are not strictly inside (start, stop)  [repaired] / keeps them [as found]
 VARIABLES c, pc, r
 vars == <<c, pc, r>>
 
@@ -53,7 +58,7 @@ WidthCases == {x \in [kind : {"width"}, fn : {"adjust", "direct"}, s : Units, a4
                 /\ (x.src = "est" => x.n >= 2)
                 /\ (x.fn = "direct" => x.w # x.n /\ x.a4 = 0)}             \* crop_dim_width / extend_dim_width called directly
 
-R0 == [set |-> {}, nl |-> 0, nr |-> 0, off |-> 0, len |-> 0]
+R0 == [set |-> {}, nl |-> 0, nr |-> 0, off |-> 0, len |-> 0, lrel |-> "none", rrel |-> "none"]
 Init == /\ pc = "start" /\ r = R0
         /\ \/ c \in CropCases
            \/ \E x \in ExtendCases : c = MkExtend(x)
@@ -65,6 +70,12 @@ ArangeLens(num8, s, samebase) ==
     ELSE IF num8 % 8 # 0 \/ Dyadic(s) THEN {CeilDiv(num8, 8)}
     ELSE IF num8 = 0 /\ samebase THEN {0}          \* arange(x, x, d): exactly empty
     ELSE {num8 \div 8, num8 \div 8 + 1}
+
+\* The q+1-th element only exists through rounding; it is the lattice point nominally AT the open end.  As a double it
+\* is strictly inside the interval ("in") or equal to / beyond the end ("out").  extend_dim as found keeps it either way;
+\* repaired, it keeps new coordinates only if  start < c < stop  (an "out" element is dropped: same outcome as length q).
+IsFuzz(num8, s, k) == num8 >= 0 /\ num8 % 8 = 0 /\ Stress(s) /\ k = num8 \div 8 + 1
+Rels(num8, s, k)   == IF IsFuzz(num8, s, k) THEN (IF ExtFilter THEN {"in"} ELSE {"in", "out"}) ELSE {"none"}
 
 (* -------------------------------------------------------------- crop: Impl *)
 \* arr.sel(slice(start (+eps), stop (-eps))): label slice, both bounds inclusive
@@ -80,11 +91,13 @@ Start8 == 2 * c.ms - (IF c.lc THEN 1 ELSE 0)
 Stop8  == 2 * c.me + (IF c.rc THEN 1 ELSE 0)
 \* if start <= current_start - step: arange(current_start - step, start, -step)[::-1]
 ExtendLeft == /\ c.kind = "extend" /\ pc = "start"
-              /\ \E k \in ArangeLens(-8 - Start8, c.s, FALSE) : r' = [r EXCEPT !.nl = k]
+              /\ \E k \in ArangeLens(-8 - Start8, c.s, FALSE) : \E rel \in Rels(-8 - Start8, c.s, k) :
+                    r' = [r EXCEPT !.nl = k, !.lrel = rel]
               /\ pc' = "right" /\ UNCHANGED c
 \* if stop >= current_stop: arange(coords[-1], stop, step)[1:]
 ExtendRight == /\ c.kind = "extend" /\ pc = "right"
-               /\ \E k \in ArangeLens(Stop8 - 8 * (c.n - 1), c.s, FALSE) : r' = [r EXCEPT !.nr = Max(k - 1, 0)]
+               /\ \E k \in ArangeLens(Stop8 - 8 * (c.n - 1), c.s, FALSE) : \E rel \in Rels(Stop8 - 8 * (c.n - 1), c.s, k) :
+                    r' = [r EXCEPT !.nr = Max(k - 1, 0), !.rrel = rel]
                /\ pc' = "reindex" /\ UNCHANGED c
 Reindex == /\ c.kind \in {"extend", "width"} /\ pc = "reindex"
            /\ r' = [r EXCEPT !.off = r.nl, !.len = c.n + r.nl + r.nr]
@@ -121,6 +134,7 @@ LawCropClosedness == c.kind = "crop" =>       \* an end that is a coordinate is 
     /\ (c.ms % 4 = 0 /\ c.ms < c.me) => ((c.ms \div 4) \in S <=> c.lc)
     /\ (c.me % 4 = 0 /\ c.ms < c.me) => ((c.me \div 4) \in S <=> c.rc)
 ImplExtend == (c.kind = "extend" /\ Done) => <<-r.nl, c.n - 1 + r.nr>> \in Extents(c.s, c.ms, c.me, c.lc, c.rc)
+ImplOpenEndExcluded == (c.kind = "extend" /\ Done) => r.lrel # "out" /\ r.rrel # "out"
 LawExtendContains == c.kind = "extend" =>    \* every accepted extent contains the axis and lies inside the interval (guard aside)
     \A w \in Extents(c.s, c.ms, c.me, c.lc, c.rc) :
         /\ w[1] <= 0 /\ w[2] >= c.n - 1
